@@ -29,6 +29,11 @@ CLAIMED = {
             "with output spacing d2; each also after a history of other calls; N in {2,4} quick / up to 8 thorough; "
             "NOT claimed: angular-spectrum vs Fresnel agreement, Gaussian beam, Airy pattern (not algebraic identities)",
             "Angle relations between chirp phases are each proved by the solver before use; ft2/ift2 contract from C09."),
+    "C14": ("5 C14", "circle(r,n,c,origin) is exactly the indicator of pixel centres within r of c on every feasible path (symbolic r>=0 and centre, "
+            "both origins, n<=4 quick / <=6 thorough: boundary-touching, half-pixel and off-array centres included) - nesting, symmetry and "
+            "integer-shift translation are consequences; findActiveSubaps returns exactly the row-major cells with mean>=threshold with "
+            "fills=means for symbolic masks/thresholds incl. sizes that are not multiples of the count; computeFillFactor reproduces the fills "
+            "when the size is a multiple; make_subaps_2d scatter/read-back identity for every 0/1 mask", "area -> pi r^2 is a limit statement, outside."),
     "C17": ("5 C17", "all converters of atmos_conversions and _astronomy: the six inverse pairs (explicit and default wavelength), "
             "composites = compositions, scaling exponents (lambda^(6/5), Cn2^(-3/5), lambda^(-1/5), r0^(-5/3), d^(-1/3)), "
             "single-layer theta0/tau0 = C r0/h with 0.313<C<0.315, axis argument = loop over profiles for rank 1-3 arrays and every "
